@@ -16,6 +16,7 @@ var ndHarnesses = map[string]func(){
 	"Harness_C19_K1_int":    Harness_C19_K1_int,
 	"Harness_C19_K1_uint":   Harness_C19_K1_uint,
 	"Harness_C19_K1_string": Harness_C19_K1_string,
+	"Harness_C14_Rel":       Harness_C14_Rel,
 }
 
 func isComparison(t token.Token) bool {
